@@ -205,6 +205,15 @@ theorem chkPow_some {inR : Int → Bool} {b r : Int} {e : Nat} (h : chkPow inR b
   · cases h; rfl
   · cases h
 
+theorem val_powFix (n : Int) (e : Nat) : val (powFix n e) = some ((n : Rat) ^ e) := by
+  unfold powFix
+  split
+  · rename_i r hr; rw [chkPow_some hr]; simp
+  · simp
+
+theorem isExact_powFix (n : Int) (e : Nat) : isExact (powFix n e) = true := by
+  unfold powFix; split <;> rfl
+
 /-- `expt` with a non-negative integer exponent: an exact answer is the exact power -/
 theorem pow_spec (a : Num) (ha : a.WF = true) (e : Nat) {r : Num} (h : pow a e = some r)
     (he : isExact r = true) : ∃ x, val a = some x ∧ val r = some (x ^ e) := by
@@ -212,10 +221,7 @@ theorem pow_spec (a : Num) (ha : a.WF = true) (e : Nat) {r : Num} (h : pow a e =
   | flo f => cases h
   | fix n =>
     simp only [pow, Option.some.injEq] at h; subst h
-    refine ⟨n, rfl, ?_⟩
-    split
-    · rename_i r hr; rw [chkPow_some hr]; simp
-    · simp
+    exact ⟨n, rfl, val_powFix n e⟩
   | big n =>
     simp only [pow, Option.some.injEq] at h; subst h
     exact ⟨n, rfl, by simp⟩
@@ -228,7 +234,12 @@ theorem pow_spec (a : Num) (ha : a.WF = true) (e : Nat) {r : Num} (h : pow a e =
       rw [chkPow_some h1, chkPow_some h2]
       simp only [val_rat]; congr 1; push_cast; rw [div_pow]
     · split at h
-      · cases h; simp at he
-      · cases h
+      · rename_i hd1
+        cases h
+        simp only [beq_iff_eq] at hd1; subst hd1
+        rw [val_powFix]; simp
+      · split at h
+        · cases h; simp at he
+        · cases h
 
 end Marwood.Arith
